@@ -333,6 +333,8 @@ def run_impl(mods, opts, hist, check_oracle=True):
                 orc.step(tuple(sym), obs, rig, nb)
             steps.append((en, canon_impl(obs), impl_state(rig)))
     finally:
+        run_impl.last_writes = list(rig.write_log)
+        run_impl.last_down_writes = list(rig.down_writes)
         rig.close()
     return steps, orc.fail
 
@@ -504,6 +506,47 @@ def gen_passive_family(depth):
     return out
 
 
+def gen_window_family():
+    """data reaching the network layer while a connection is only being established: a logged-in connection
+    (keep-alive running) is lost (peer close / socket error), the application (or nobody) asks for a new one
+    BEFORE or AFTER the loop has delivered the old connection's DISCONNECTED, and in that window - state
+    CONNECTING, fresh dispatcher not connected yet - ping ticks fire and the application sends; then the loop, a
+    failing attempt, or the new connection coming up (only where the old DISCONNECTED has been delivered).
+    The "before the loop" half lies in the window of the open finding connect-before-deferred-disconnected and
+    is outside the theorems' domain; it is run unfiltered, against the model's unrestricted step function."""
+    out = []
+    T, S, L = (E_TICK, 0), (E_APP_SEND, 0), (E_LOOP, 0)
+    for prefix in ([(E_CONNECT_REQ, 0), (E_DISP_CONNECTED, 0), (E_SUCCESS, 0)],
+                   [(E_CONNECT_REQ, 0), (E_DISP_CONNECTED, 0), (E_SUCCESS, 0), T, (E_PONG, 0)]):
+        for close in ((E_PEER_CLOSE, 0), (E_SOCK_ERROR, 0)):
+            for looped in (False, True):
+                for conn_ev in ((E_CONNECT_REQ, 0), (E_CONNECT_CALL, 0)):
+                    for d in (1, 2):
+                        for w in itertools.product([T, S], repeat=d):
+                            tails = [[], [L], [(E_SOCK_ERROR, 0), L]]
+                            if looped:
+                                tails.append([(E_DISP_CONNECTED, 0), (E_SUCCESS, 0), T])
+                            for tail in tails:
+                                out.append(prefix + [close] + ([L] if looped else []) + [conn_ev] + list(w) + tail)
+                    # ... and with nobody asking: sends / ticks after the close, before and after the loop
+                for d in (1, 2):
+                    for w in itertools.product([T, S], repeat=d):
+                        out.append(prefix + [close] + ([L] if looped else []) + list(w) + [L])
+    return out
+
+
+def write_rule(impl):
+    """no write unless the connection is up, over ALL writes (login bytes, keep-alive pings, application data,
+    uploads), judged per dispatcher instance: the first step at which a dispatcher that is not up was written to"""
+    for k, (en, obs, st) in enumerate(impl):
+        for it in obs.get(c16rig.OBS_DISP, []):
+            if it[0] == c16rig.D_WRITE and it[-1] != 1:
+                return k
+    if run_impl.last_down_writes:
+        return len(impl) - 1
+    return None
+
+
 EXT_ALPHABET = [(E_LOOP, 0), (E_SOCK_ERROR, 0), (E_DISCONNECT_REQ, 0), (E_DISP_CONNECTED, 0), (E_TICK, 0),
                 (E_SUCCESS, 0), (E_CONNECT_REQ, 0), (E_PEER_CLOSE, 0), (E_STREAM_ERROR, 1), (E_STREAM_ERROR, 0),
                 (E_FAILURE, 0), (E_APP_SEND, 0), (E_KEYS_RESULT, 0), (E_KEYS_ERROR, 0)]
@@ -641,6 +684,47 @@ def run(ctx):
                       "history": hist_json([(0, 0), (3, 0), (1, 0)]), "options": o0.as_dict(),
                       "guards": list(fixes)})
 
+    # ---- 1b. the connecting window (partly outside the theorems' domain): no write unless the connection is up
+    if model is not None:
+        ow = Opts(True, False, True)
+        n_win = 0
+        for hist in gen_window_family():
+            impl, _ = run_impl(mods, ow, hist, check_oracle=False)
+            evals += 1
+            n_win += 1
+            bad = write_rule(impl)
+            ms = [[i, m[1], m[2]] for i, m in
+                  enumerate(model.call("run_hist", [ow.cfg(*fixes), [list(s) for s in hist]]))]
+            diff = compare(ms, impl, strict=False)
+            if bad is not None:
+                small = list(hist)
+                changed = True
+                while changed and len(small) > 1:
+                    changed = False
+                    for i in range(len(small)):
+                        cand = small[:i] + small[i + 1:]
+                        ci, _ = run_impl(mods, ow, cand, check_oracle=False)
+                        if write_rule(ci) is not None:
+                            small, changed = cand, True
+                            break
+                ci, _ = run_impl(mods, ow, small, check_oracle=False)
+                kk = write_rule(ci)
+                ctx.violation("oracle:C16.no_write_unless_up",
+                              {"kind": "window", "options": ow.as_dict(), "guards": list(fixes),
+                               "history": hist_json(small), "oracle":
+                               "at %s data was written to a dispatcher that is not connected (writes as (dispatcher, "
+                               "its phase, bytes): %r): nothing may be written to a connection unless it is up"
+                               % (NAMES[small[kk][0]], run_impl.last_writes),
+                               "writes": [list(w) for w in run_impl.last_writes], "difference": None})
+                break
+            if diff is not None:
+                mism += 1
+                ctx.violation("correspondence:C16.step", {"kind": "window", "options": ow.as_dict(),
+                              "guards": list(fixes), "history": hist_json(hist), "difference": diff,
+                              "oracle": None}, found_input=False)
+                break
+        ctx.coverage["window_family_histories"] = n_win
+
     # ---- 2. in-domain histories: exhaustive to a length, then random
     all_opts = [Opts(r, p, g, s) for r in (True, False) for p in (False, True) for g in (True, False)
                 for s in (True,)] + [Opts(False, False, True, False)]
@@ -757,10 +841,18 @@ def replay(ctx, data):
     hist = hist_from_json(case["history"])
     fixes = tuple(detect_fixes(mods)[:2])
     impl, ofail = run_impl(mods, opts, hist)
+    if case.get("kind") == "window":
+        ofail = None       # (partly outside the lifecycle oracle's domain: only the write rule is judged here)
     for sym, (en, obs, st) in zip(hist, impl):
         print("%-16s enabled=%s obs=%s state=%s" % (NAMES[sym[0]] + (":%d" % sym[1] if sym[0] in (8, 9) else ""),
                                                     en, obs, st))
     print("oracle on the implementation:", ofail)
+    wr = write_rule(impl)
+    print("writes (dispatcher, its phase at the write, bytes):", run_impl.last_writes)
+    if wr is not None:
+        print("no write unless the connection is up: violated at step %d (%s)" % (wr, NAMES[hist[wr][0]]))
+        if case.get("kind") == "window":
+            ofail = ofail or "write to a dispatcher that is not up"
     diff = None
     exe = ctx.build_model("C16")
     if exe:
